@@ -788,7 +788,10 @@ def check_decoded(case, hr, descs, doms, act_doms, act_descs, x, cfg, in_box, la
         tag = kind_tag(desc)
         st, why = membership(desc, dom, v)
         if st == "ulp":
-            case.ulp_excursions += 1
+            # decoding ends with a clip to [lower, upper]: a decoded value is a member exactly, also on the faces of the cube
+            # (where the optimiser of the acquisition function puts its candidates)
+            case.finding("c07:decode-not-member:" + tag, f"{tag}: from_ndarray gave {v!r} ({label}), outside [{dom.lower!r}, {dom.upper!r}] by "
+                         f"rounding", {"domain": desc, "x": [float(t) for t in x], "value": repr(v)})
         elif st == "bad":
             case.finding("c07:decode-not-member:" + tag, f"{tag}: from_ndarray gave {v!r} ({label}): {why}",
                          {"domain": desc, "x": [float(t) for t in x], "value": repr(v)})
